@@ -17,7 +17,9 @@
     "chunk": 200,
     "shrink_s": 30,
     "det_runs": 300,
-    "rule": ("one run = one input (1-8 P-256 keys from a universe of 12 deterministic keys, repeats allowed; 1..n signatures over "
+    "rule": ("one run = one input (1-8 P-256 keys from a universe of 12 deterministic keys, repeats allowed, one key in eight the "
+             "mirror image (same X, other Y) of a list key, one in ten in the uncompressed encoding; the decoder's process-wide key "
+             "cache, part of the call's history, starts every run empty; 1..n signatures over "
              "a fixed 32-byte hash built from an in-order selection plus 0-3 mutations: bit-flipped / truncated / all-zero "
              "signature, swapped order, repeated signature, signer outside the list) executed by vm.CheckMultisigPar under the "
              "release order of the tape, plus (Enum>0: quick 64, thorough 256 or 4096) every release order of that input; "
@@ -25,6 +27,7 @@
              "non-trivial when a probe fired; distinct = distinct hash of input + release/arrival log"),
     "probes": ["result_true", "result_false", "false_by_order_only", "reordered_arrival", "result_unconsumed_at_return",
                "repeated_keys", "repeated_sig", "invalid_sig", "foreign_signer", "m_less_than_n", "single_sig_path",
+               "key_and_its_mirror_image_in_list", "uncompressed_key_in_list",
                "results_arrived", "scheduling_decisions", "schedules_enumerated", "enum_complete", "enum_truncated"],
     "components": {"real": ["pkg/vm.CheckMultisigPar with its 3 worker goroutines and channels",
                             "pkg/crypto/keys (key decoding, RFC6979 signing, ECDSA verification)"],
